@@ -1,6 +1,7 @@
 """C04 — assertions addressed to someone else are never accepted.
 
-A case is either ONE Response presented to a provider (the keys rs/dest/recip/conv/binding/cfg) or a
+A case is either ONE Response presented to a provider (the keys rs/dest/recip/conv/binding/cfg, optionally
+"cond" = the shape of the <Conditions> element and "confs" = the LIST of SubjectConfirmation elements) or a
 SEQUENCE of calls on several long-lived provider objects living in one process (the keys sps/steps).
 Every sequence is observed in a process forked from one in which no provider object has ever been used
 (see _zygote): the observation is a function of the case alone, also when the code under test keeps
@@ -15,7 +16,8 @@ from harness.common import Raw, cq, cq_opt
 
 PID = "C04"
 PARALLEL = 12
-IMPORTS = "From Verif Require Import C04.Model C04.Spec C04.Corr."
+IMPORTS = "From Verif Require Import C04.Model C04.Spec C04.Corr.\nFrom VerifGen Require Import C04Abbrev."
+SHARD = 170           # cases per coqc file (16 files are evaluated side by side)
 CASE_TYPE = "C04.Corr.case"
 RUNNER = "C04.Corr.run"
 FINDING_CLASSES = {1: "C04-F1"}
@@ -35,18 +37,43 @@ RULE = ("(1) single Responses: complete enumeration of audience structures up to
         "Recipient first) in both orders; plus seeded random sequences of 3-8 calls over 1-3 objects whose "
         "Destination/Recipient/Audience values are drawn from the endpoints and entityIDs of ALL objects of the case.  "
         "non-trivial for a sequence = distinct (per call: kind, object, binding, classes of Destination/Recipient/"
-        "Audience relative to the called object and to the other objects, conv)")
+        "Audience relative to the called object and to the other objects, conv).  "
+        "(3) the SHAPE of the message (message_cases / message_sequences): <Conditions> with every combination of "
+        "{NotBefore present/absent} x {NotOnOrAfter present/absent} x {no other child, OneTimeUse, ProxyRestriction naming me / "
+        "someone else} x 8 core audience structures (complete), no <Conditions> at all, period-less Conditions x the whole "
+        "single-audience alphabet; SubjectConfirmation LISTS of length 0-4 over a 21-letter alphabet (bearer x 8 Recipient "
+        "classes, bearer without data / with data that does not confirm (NotBefore only) / without window, holder-of-key "
+        "with/without KeyInfo/data, sender-vouches with/without data, unknown method): all singles x 3 conv_info, all ordered "
+        "pairs over the 9-letter core (thorough: all 441 pairs x 2), seeded samples of the rest and of triples/quadruples; "
+        "seeded mixtures of all dimensions at once; the back-channel binding SOAP (Destination x Recipient x conv_info, "
+        "audience structures); unsolicited Responses (no InResponseTo, SP allows them) x Destination x Recipient x "
+        "conv_info x binding x audience structures; the same shapes inside call sequences on every pool configuration")
 TRUSTED = ["source-to-Gallina translator harness/py2coq.py + value universe coq/theories/Base/Py.v (for_me is re-translated "
            "from the source text on every run; c04_source_for_me proves it equal to the model)",
+           "translator harness/py2coq2.py + coq/theories/Base/Py2.v (source text -> Gallina, fail-closed; not modelled: "
+           "aliasing of mutable objects, set order, Unicode case mapping, generators' laziness), used by "
+           "harness/c04.py:regenerate_tables for response.py:for_me, response.py:AuthnResponse.verify_recipient, "
+           "response.py:AuthnResponse.get_subject, response.py:StatusResponse._verify, response.py:AuthnResponse.condition_ok, "
+           "config.py:Config.endpoint, client_base.py:Base.service_urls (coq/gen/C04Src2.v; theorems c04_source2_*); the "
+           "translation specs of harness/c04.py:source2_items: external calls (verify_attesting_entity, _bearer_confirmed, "
+           "_holder_of_key_confirmed, issue_instant_ok, status_ok, later_than, validate_on_or_after, validate_before, "
+           "Conditions.keyswv, Config.getattr, type) as extra arguments constrained only by the Section hypotheses of "
+           "C04/Source2.v, SCM_* / XSI_TYPE taken from the live modules, the float literal 2.0 of StatusResponse._verify "
+           "replaced by an extra argument (harness/c04.py:_without_float), exception class parents EXC_PARENTS",
            "xmlsec1 stand-in (harness/standin/xmlsec1.py)", "renderer harness/render.py", "abstraction in harness/c04.py",
            "os.fork isolation of the call-sequence observations (harness/c04.py:_zygote/_isolated)"]
 ASSUMPTIONS = ["whitespace padding uses ASCII whitespace only (model's strip is the ASCII part of str.strip)",
+               "a SubjectConfirmation 'confirms' (d_confirmed) as read by harness/c04.py:confirmed from the rendered shape: bearer / "
+               "sender-vouches data unless it has a NotBefore without NotOnOrAfter, holder-of-key data iff it contains ds:KeyInfo; "
+               "confirmation data that is expired / not yet valid makes the whole Response fail and is not generated",
                "everything else about the Response is valid (status, times, signature, InResponseTo)",
                "call sequences: the calls of one case are made one after the other in one thread"]
 
 ME = world.SP_ID
 OTHER = "https://other.example.org/sp.xml"
 POST, REDIRECT = world.BINDING_HTTP_POST, world.BINDING_HTTP_REDIRECT
+SOAP = "urn:oasis:names:tc:SAML:2.0:bindings:SOAP"
+SP_ACS_SOAP = "https://sp.example.org/acs/soap"
 
 CONFIGS = {
     "default": [(world.SP_ACS_POST, POST), (world.SP_ACS_REDIRECT, REDIRECT)],
@@ -56,6 +83,14 @@ CONFIGS = {
     "postonly": [(world.SP_ACS_POST, POST)],
     "redironly": [(world.SP_ACS_REDIRECT, REDIRECT)],
 }
+# configurations used only by the back-channel cases (kept out of the Destination x Recipient product above)
+CONFIGS_EXTRA = {
+    "soap": [(world.SP_ACS_POST, POST), (SP_ACS_SOAP, SOAP)],
+}
+
+
+def cfg_eps(cfg):
+    return CONFIGS[cfg] if cfg in CONFIGS else CONFIGS_EXTRA[cfg]
 
 
 # ------------------------------------------------------------------ provider objects of the call sequences
@@ -224,12 +259,424 @@ def random_sequences(ctx, count):
     return out
 
 
+# ------------------------------------------------------------------ the whole message: Conditions shape, confirmation list
+# "cond": None (= the usual Conditions: NotBefore + NotOnOrAfter + the restrictions of "rs") or
+#         {"present": bool, "nb": bool, "nooa": bool, "other": None|"onetime"|"proxy-me"|"proxy-other"|"onetime+proxy"}
+#         (present False: the assertion has no <Conditions> element; "rs" must then be []).
+# "confs": None (= one bearer confirmation with data whose Recipient is "recip") or a list, in document order, of
+#         {"m": "bearer"|"hok"|"sv"|"other", "data": None | {"recip": str|None, "shape": ...}}
+#         shape, bearer/sv/other: "ok" (NotOnOrAfter in the future), "nowindow" (neither attribute), "nbonly" (a NotBefore
+#         in the past but no NotOnOrAfter: such data does not confirm a bearer);  hok: "ki" (KeyInfo inside) | "noki".
+METHODS = {"bearer": render.SCM_BEARER, "hok": "urn:oasis:names:tc:SAML:2.0:cm:holder-of-key",
+           "sv": "urn:oasis:names:tc:SAML:2.0:cm:sender-vouches", "other": "urn:example:cm:unknown"}
+COQ_METHOD = {"bearer": "Bearer", "hok": "HolderOfKey", "sv": "SenderVouches", "other": "OtherMethod"}
+OTHERS = (None, "onetime", "proxy-me", "proxy-other")
+
+
+def conf(m, recip=None, shape="ok", data=True):
+    return {"m": m, "data": {"recip": recip, "shape": shape} if data else None}
+
+
+def confirmed(c):
+    """The harness's own reading of 'this confirmation data confirms the subject for its method' (Web SSO profile 4.1.4.2:
+    bearer data carries a NotOnOrAfter; core 3.1: holder-of-key data carries KeyInfo) - independent of the code under test."""
+    d = c["data"]
+    if d is None:
+        return False
+    if c["m"] == "hok":
+        return d["shape"] == "ki"
+    return d["shape"] != "nbonly"
+
+
+def _conf_xml(c, irt="req-1"):
+    d = c["data"]
+    data = ""
+    if d is not None:
+        sh = d["shape"]
+        nb = env.iso(spaccept.NOW - 300) if sh == "nbonly" else None
+        nooa = None if sh in ("nbonly", "nowindow") else env.iso(spaccept.NOW + 300)
+        attrs = "%s%s%s%s" % (render.attr("InResponseTo", irt), render.attr("NotBefore", nb),
+                              render.attr("NotOnOrAfter", nooa), render.attr("Recipient", d["recip"]))
+        if sh == "ki":
+            data = ("<saml:SubjectConfirmationData%s><ds:KeyInfo><ds:KeyName>holder-key</ds:KeyName></ds:KeyInfo>"
+                    "</saml:SubjectConfirmationData>" % attrs)
+        else:
+            data = "<saml:SubjectConfirmationData%s/>" % attrs
+    return "<saml:SubjectConfirmation Method=%s>%s</saml:SubjectConfirmation>" % (render.quoteattr(METHODS[c["m"]]), data)
+
+
+def _conditions(step, me_eid, other_eid):
+    cond = step.get("cond")
+    if cond is None:
+        return "usual"
+    if not cond["present"]:
+        assert not step["rs"], "no <Conditions>: no restrictions"
+        return None
+    c = {"audience_restrictions": step["rs"]}
+    if cond["nb"]:
+        c["not_before"] = env.iso(spaccept.NOW - 300)
+    if cond["nooa"]:
+        c["not_on_or_after"] = env.iso(spaccept.NOW + 300)
+    extra = ""
+    o = cond["other"] or ""
+    if "onetime" in o:
+        extra += "<saml:OneTimeUse/>"
+    if "proxy" in o:
+        extra += '<saml:ProxyRestriction Count="1"><saml:Audience>%s</saml:Audience></saml:ProxyRestriction>' % (
+            render.escape(me_eid if o.endswith("proxy-me") else other_eid))
+    if extra:
+        c["extra"] = extra
+    return c
+
+
+def conf_alphabet(own, eid, other_binding):
+    """Every kind of SubjectConfirmation the acceptance path distinguishes, with Recipients drawn from the classes of the
+    property text (own endpoint, entityID, foreign, look-alikes, absent, empty, own endpoint of another binding)."""
+    al = [conf("bearer", r) for r in (own, eid, EVIL, own + "/x", own.upper(), None, "", other_binding)]
+    al += [conf("bearer", data=False), conf("bearer", EVIL, "nbonly"), conf("bearer", own, "nbonly"),
+           conf("bearer", EVIL, "nowindow"), conf("bearer", own, "nowindow"),
+           conf("hok", own, "ki"), conf("hok", EVIL, "ki"), conf("hok", EVIL, "noki"), conf("hok", data=False),
+           conf("sv", own), conf("sv", EVIL), conf("sv", data=False), conf("other", own)]
+    return al
+
+
+CORE_CONFS = (0, 1, 2, 3, 5, 8, 9, 15, 18)     # indexes into conf_alphabet: the bearer Recipient classes + one of each skip kind
+
+AUD_CORE = [[], [[ME]], [[OTHER]], [[ME], [OTHER]], [[OTHER], [ME]], [[OTHER, ME]], [[ME + "x"]], [[ME.upper()]]]
+
+
+def cond_shapes():
+    return [{"present": True, "nb": nb, "nooa": nooa, "other": o} for nb in (True, False) for nooa in (True, False) for o in OTHERS]
+
+
+def message_cases(ctx):
+    """The dimensions of the message besides the VALUES of audience / Destination / Recipient: which optional parts the
+    <Conditions> element has, how many SubjectConfirmation elements there are, of which method, with or without (usable)
+    data, in which order - and the back-channel binding."""
+    rng = ctx.rng
+    cases = []
+    good = {POST: world.SP_ACS_POST, REDIRECT: world.SP_ACS_REDIRECT}
+    conv = {"entity_id": ME}
+
+    def one(binding, rs, cond, confs, conv_, tag, dest="own", cfg="default"):
+        d = good[binding] if dest == "own" else dest
+        c = mk_case(rs, d, good.get(binding, SP_ACS_SOAP), conv_, binding, cfg, tag)
+        if cond is not None:
+            c["cond"] = cond
+        if confs is not None:
+            c["confs"] = confs
+        return c
+
+    # (a) <Conditions>: {NotBefore} x {NotOnOrAfter} x {no other child, OneTimeUse, ProxyRestriction naming me / someone else}
+    #     x the core audience structures - complete; both bindings for the shapes without other children
+    for cond in cond_shapes():
+        for rs in AUD_CORE:
+            cases.append(one(POST, rs, cond, None, None, "cond"))
+            if cond["other"] is None:
+                cases.append(one(REDIRECT, rs, cond, None, conv, "cond"))
+    for binding in (POST, REDIRECT):      # no <Conditions> element at all
+        for cv in (None, conv):
+            cases.append(one(binding, [], {"present": False, "nb": False, "nooa": False, "other": None}, None, cv, "cond"))
+    # period-less Conditions x the whole single-audience alphabet (incl. padded, look-alike, empty Audience)
+    for a in aud_alphabet():
+        for nb, nooa in ((False, False), (True, False), (False, True)):
+            cases.append(one(POST, [[a]], {"present": True, "nb": nb, "nooa": nooa, "other": None}, None, None, "cond"))
+            cases.append(one(POST, [[ME], [a]], {"present": True, "nb": nb, "nooa": nooa, "other": None}, None, None, "cond"))
+    # (b) confirmation lists
+    al = conf_alphabet(good[POST], ME, good[REDIRECT])
+    convs = [conv, None, {"remote_addr": "0.0.0.0"}]
+    cases.append(one(POST, [[ME]], None, [], conv, "confs"))
+    cases.append(one(POST, [[ME]], None, [], None, "confs"))
+    for c in al:
+        for cv in convs:
+            cases.append(one(POST, [[ME]], None, [c], cv, "confs"))
+    core = [al[i] for i in CORE_CONFS]
+    pairs = [[a, b] for a in al for b in al]
+    if ctx.thorough:
+        for pr in pairs:
+            for cv in convs[:2]:
+                cases.append(one(POST, [[ME]], None, pr, cv, "confs"))
+    else:
+        done = set()
+        for a in core:
+            for b in core:
+                cases.append(one(POST, [[ME]], None, [a, b], conv, "confs"))
+                done.add(json.dumps([a, b], sort_keys=True))
+        rest = [pr for pr in pairs if json.dumps(pr, sort_keys=True) not in done]
+        for pr in rng.sample(rest, 90):
+            cases.append(one(POST, [[ME]], None, pr, rng.choice(convs[:2]), "confs"))
+    for _ in range(500 if ctx.thorough else 50):
+        n = rng.choice([3, 3, 4])
+        cs = [rng.choice(al) if rng.random() < .5 else rng.choice(core[:2]) for _ in range(n)]
+        cases.append(one(rng.choice([POST, REDIRECT]), [[ME]], None, cs, rng.choice(convs), "confs"))
+    # (c) everything at once: a fault in one dimension hidden behind unusual shapes in the others
+    shapes = cond_shapes()
+    for _ in range(600 if ctx.thorough else 70):
+        binding = rng.choice([POST, REDIRECT])
+        own = good[binding]
+        alb = conf_alphabet(own, ME, good[REDIRECT if binding == POST else POST])
+        cs = [rng.choice(alb) if rng.random() < .4 else alb[rng.choice([0, 0, 1])] for _ in range(rng.choice([1, 2, 2, 3]))]
+        rs = rng.choice(AUD_CORE[1:]) if rng.random() < .5 else [[ME]]
+        dest = "own" if rng.random() < .7 else rng.choice([None, "", EVIL, own + "/x", good[REDIRECT if binding == POST else POST]])
+        cases.append(one(binding, rs, rng.choice(shapes), cs, rng.choice(convs), "mixed", dest=dest))
+    # (e) unsolicited Responses (no InResponseTo; the SP allows them): the same three clauses
+    noperiod = {"present": True, "nb": False, "nooa": False, "other": None}
+    for binding in (POST, REDIRECT):
+        own, ob = good[binding], good[REDIRECT if binding == POST else POST]
+        for dest in (None, own, EVIL, own + "/x", ob):
+            for recip in (own, ME, EVIL, own[:-1], ob, None):
+                for cv in (conv, None):
+                    if not ctx.thorough and cv is None and dest not in (own, EVIL):
+                        continue
+                    c = one(binding, [[ME]], None, [conf("bearer", recip)], cv, "unsol", dest=dest)
+                    c["unsol"] = True
+                    cases.append(c)
+        for rs in AUD_CORE:
+            for cond in (None, noperiod):
+                c = one(binding, rs, cond, None, conv, "unsol")
+                c["unsol"] = True
+                cases.append(c)
+        c = one(binding, [[ME]], noperiod, [conf("bearer", EVIL), conf("bearer", own)], conv, "unsol")
+        c["unsol"] = True
+        cases.append(c)
+    # (d) the back-channel binding (SOAP): no Destination obligation there, audience and Recipient clauses unchanged
+    for dest in (None, SP_ACS_SOAP, EVIL, world.SP_ACS_POST):
+        for recip in (SP_ACS_SOAP, EVIL, ME, world.SP_ACS_POST, None):
+            for cv in (None, conv):
+                cases.append(one(SOAP, [[ME]], None, [conf("bearer", recip)], cv, "soap", dest=dest, cfg="soap"))
+    for rs in AUD_CORE:
+        cases.append(one(SOAP, rs, {"present": True, "nb": False, "nooa": False, "other": None}, None, conv, "soap", dest=SP_ACS_SOAP, cfg="soap"))
+    cases.append(one(SOAP, [[ME]], None, [conf("bearer", EVIL), conf("bearer", SP_ACS_SOAP)], conv, "soap", dest=None, cfg="soap"))
+    cases.append(one(SOAP, [[ME]], None, [conf("bearer", SP_ACS_SOAP)], conv, "soap", dest=None, cfg="default"))
+    return cases
+
+
+def message_sequences(ctx):
+    """The new dimensions on long-lived objects: an unusual message before / after usual ones, on every configuration of
+    the pool, and random sequences whose Responses vary in all dimensions."""
+    rng = ctx.rng
+    out = []
+    noperiod = {"present": True, "nb": False, "nooa": False, "other": None}
+    for name, prov in POOL.items():
+        sps = [prov]
+        conv = {"entity_id": prov["eid"]}
+        g = (p_own(prov, POST) or ["https://sp.example.org/acs/unregistered"])[0]
+        first = dict(s_parse(0, POST, [[prov["eid"]]], g, g, conv), confs=[conf("bearer", EVIL), conf("bearer", g)])
+        last = dict(s_parse(0, POST, [[prov["eid"]]], g, g, conv), confs=[conf("bearer", g), conf("bearer", EVIL)])
+        aud = dict(s_parse(0, POST, [[OTHER]], g, g, conv), cond=noperiod)
+        out.append(mk_seq(sps, [s_good(sps, 0, POST, conv), first, aud, last, s_good(sps, 0, POST, conv)], "seq-message"))
+        out.append(mk_seq(sps, [aud, first, s_good(sps, 0, POST, conv), aud], "seq-message"))
+    names = list(POOL)
+    shapes = cond_shapes()
+    for _ in range(300 if ctx.thorough else 30):
+        k = rng.choice([1, 2, 2])
+        sps = [POOL[c] for c in rng.sample(names, k)]
+        eids = sorted({p["eid"] for p in sps} | {OTHER})
+        steps = []
+        for _ in range(rng.randint(2, 5)):
+            i = rng.randrange(k)
+            b = rng.choice([POST, REDIRECT])
+            good = s_good(sps, i, b)
+            own = good["dest"]
+            me = sps[i]["eid"]
+            theirs = [u for p in sps for u in p_urls(p)]
+            alb = conf_alphabet(own, me, rng.choice(theirs))
+            cs = [rng.choice(alb) if rng.random() < .4 else alb[rng.choice([0, 0, 1])] for _ in range(rng.choice([1, 2, 2, 3]))]
+            o = rng.choice(eids)
+            rs = [[me]] if rng.random() < .6 else rng.choice([[[o]], [[o], [me]], [[me], [o]], [[o, me]], [[me + "x"]]])
+            st = s_parse(i, b, rs, own if rng.random() < .7 else rng.choice([None, EVIL] + theirs), own,
+                         rng.choice([None, {"entity_id": me}, {"entity_id": me, "remote_addr": "192.0.2.7"}]))
+            st["confs"] = cs
+            st["cond"] = rng.choice(shapes)
+            steps.append(st)
+        out.append(mk_seq(sps, steps, "seq-message"))
+    return out
+
+
+# ------------------------------------------------------------------ names for the strings / endpoint lists of (nearly) every case
+# Coq parses a string literal character by character, which dominated the evaluation time of the case files: the
+# static vocabulary of the generator (independent of the seed) gets names in coq/gen/C04Abbrev.v, written on every run
+# from the very Python values; a string is replaced by its name only when it is EQUAL to that value.
+def abbr_strings():
+    out = []
+    vals = [POST, REDIRECT, SOAP, ME, OTHER, EVIL, SP_ACS_SOAP, world.SP_ACS_POST, world.SP_ACS_REDIRECT,
+            world.SP_SLO_POST, world.SP_SLO_REDIRECT, "https://sp.example.org/acs/unregistered",
+            "https://sp.example.org/acs/elsewhere"]
+    for eps in list(CONFIGS.values()) + list(CONFIGS_EXTRA.values()):
+        vals += [e if isinstance(e, str) else e[0] for e in eps]
+    for p in POOL.values():
+        vals += [p["eid"]] + p_urls(p) + p_urls(p, "slo")
+    vals += [a for a in aud_alphabet() if a is not None]
+    for x in vals:
+        if x not in out:
+            out.append(x)
+    return out
+
+
+def abbr_lists():
+    out = []
+    for eps in list(CONFIGS.values()) + list(CONFIGS_EXTRA.values()) + [p[k] for p in POOL.values() for k in ("acs", "slo")]:
+        key = json.dumps(eps)
+        if key not in out:
+            out.append(key)
+    return out
+
+
+_ABBR = None
+
+
+def abbr():
+    global _ABBR
+    if _ABBR is None:
+        _ABBR = ({x: "a04_s%d" % i for i, x in enumerate(abbr_strings())},
+                 {k: "a04_e%d" % i for i, k in enumerate(abbr_lists())})
+    return _ABBR
+
+
+def cs(x):
+    """Coq term of a Python str: its name if it is one of the static vocabulary, the literal otherwise."""
+    a = abbr()[0].get(x)
+    return Raw(a) if a is not None else Raw(cq(x))
+
+
+def cs_opt(x):
+    return "None" if x is None else "(Some %s)" % cs(x)
+
+
+def _eps_term(eps):
+    out = []
+    for e in eps:
+        if isinstance(e, (tuple, list)):
+            out.append(Raw("(EP %s %s)" % (cs(e[0]), cs(e[1]))))
+        else:
+            out.append(Raw("(Bare %s)" % cs(e)))
+    return cq(out)
+
+
+def write_abbrev():
+    from harness import common
+    strs, lists = abbr()
+    L = ["(* GENERATED by harness/c04.py: names for frequently used strings and endpoint lists (keeps the case files fast to parse). *)",
+         "From Coq Require Import String List NArith.", "From Verif Require Import Base.Str C04.Model.", "Import ListNotations.",
+         "Open Scope string_scope.", ""]
+    for x, name in strs.items():
+        L.append("Definition %s : string := %s." % (name, cq(x)))
+    for k, name in lists.items():
+        L.append("Definition %s : list epspec := %s." % (name, _eps_term(json.loads(k))))
+    return common.write_if_changed(os.path.join(common.GEN, "C04Abbrev.v"), "\n".join(L) + "\n")
+
+
+# ------------------------------------------------------------------ translator v2: the anchored decision functions
+FLOAT_NAME = "VERIF_FLOAT_TWO"
+
+
+def _without_float(src_path):
+    """py2coq2 has no float constants.  StatusResponse._verify compares the parsed version with the literal 2.0 on a path the
+    model does not mirror (version != "2.0"): a copy of response.py in which that ONE literal is replaced by a global name
+    (an extra argument of the Gallina definition) is what the translator reads.  Fail-closed: when the line is not there
+    exactly once the text is left alone and the translator refuses the float constant (poisoned definition)."""
+    from harness import common
+    with open(src_path) as f:
+        src = f.read()
+    needle = "            if _ver < 2.0:\n"
+    if src.count(needle) == 1:
+        src = src.replace(needle, "            if _ver < %s:\n" % FLOAT_NAME)
+    out = os.path.join(common.WORK, PID, "src", "saml2", "response.py")     # ".../src/saml2/..." keeps the origin comment short
+    os.makedirs(os.path.dirname(out), exist_ok=True)
+    common.write_if_changed(out, src)
+    return out
+
+
+EXC_PARENTS = {"VerificationError": ["SAMLError", "Exception"], "UnsolicitedResponse": ["SAMLError", "Exception"],
+               "RequestVersionTooLow": ["SAMLError", "Exception"], "RequestVersionTooHigh": ["SAMLError", "Exception"],
+               "SAMLError": ["Exception"]}
+
+
+def source2_items():
+    """(source file, qualified name, translation spec) of the functions that coq/theories/C04/Source2.v proves equal to the
+    model.  External calls (other methods, time validation, XML objects) are extra parameters of the Gallina definitions;
+    Source2.v states what it assumes about them as Section hypotheses.  Calls of a function that is itself translated
+    (verify_recipient from get_subject, Config.endpoint from service_urls, for_me from condition_ok) go to the translation."""
+    sdir = os.path.join(env.SRC, "saml2")
+    rsp, cb, cf = (os.path.join(sdir, f) for f in ("response.py", "client_base.py", "config.py"))
+    logs = ["logger.error", "logger.debug", "logger.info", "logger.exception", "logger.warning"]
+    return [
+        (rsp, "for_me", {"name": "src2_for_me", "params": ["conditions", "myself"], "ignore_calls": logs}),
+        (rsp, "AuthnResponse.verify_recipient", {"name": "src2_verify_recipient", "params": ["self", "recipient"]}),
+        (rsp, "AuthnResponse.get_subject", {
+            "name": "src2_get_subject", "params": ["self", "keys"],
+            "extra_params": [("attesting_ext", "pyval -> pyval -> pyval"), ("bearer_ext", "pyval -> pyval -> pyval"),
+                             ("hok_ext", "pyval -> pyval -> pyval"), ("decrypt_ext", "pyval -> pyval -> pyval -> pyval"),
+                             ("nameid_ext", "pyval -> pyval"), ("to_string_ext", "pyval -> pyval")],
+            "calls": {"self.verify_attesting_entity": lambda a: "(attesting_ext v_self %s)" % a[0],
+                      "self._bearer_confirmed": lambda a: "(bearer_ext v_self %s)" % a[0],
+                      "self._holder_of_key_confirmed": lambda a: "(hok_ext v_self %s)" % a[0],
+                      "self.verify_recipient": lambda a: "(src2_verify_recipient v_self %s)" % a[0],
+                      "self.sec.decrypt_keys": lambda a, kw: "(decrypt_ext v_self %s %s)" % (a[0], kw["keys"]),
+                      "saml.name_id_from_string": lambda a: "(nameid_ext %s)" % a[0],
+                      "subject.encrypted_id.encrypted_data.to_string": lambda a: "(to_string_ext v_subject)"},
+            "globals": {"SCM_BEARER": '(PStr "%s")' % _scm("SCM_BEARER"), "SCM_HOLDER_OF_KEY": '(PStr "%s")' % _scm("SCM_HOLDER_OF_KEY"),
+                        "SCM_SENDER_VOUCHES": '(PStr "%s")' % _scm("SCM_SENDER_VOUCHES")},
+            "ignore_calls": logs, "returns_state": ["self"], "attr_errors": True, "exc_parents": EXC_PARENTS}),
+        (_without_float(rsp), "StatusResponse._verify", {
+            "name": "src2_verify", "params": ["self"],
+            "extra_params": [("issue_instant_ok_ext", "pyval -> pyval"), ("status_ok_ext", "pyval -> pyval"),
+                             ("float_ext", "pyval -> pyval"), ("float_two", "pyval")],
+            "calls": {"self.issue_instant_ok": lambda a: "(issue_instant_ok_ext v_self)",
+                      "self.status_ok": lambda a: "(status_ok_ext v_self)", "float": lambda a: "(float_ext %s)" % a[0]},
+            "globals": {FLOAT_NAME: "float_two"}, "ignore_calls": logs, "exc_parents": EXC_PARENTS}),
+        (rsp, "AuthnResponse.condition_ok", {
+            "name": "src2_condition_ok", "params": ["self", "lax"],
+            "extra_params": [("later_than_ext", "pyval -> pyval -> pyval"), ("validate_nooa_ext", "pyval -> pyval -> pyval"),
+                             ("validate_nb_ext", "pyval -> pyval -> pyval"), ("keyswv_ext", "pyval -> pyval")],
+            "calls": {"later_than": lambda a: "(later_than_ext %s %s)" % tuple(a),
+                      "validate_on_or_after": lambda a: "(validate_nooa_ext %s %s)" % tuple(a),
+                      "validate_before": lambda a: "(validate_nb_ext %s %s)" % tuple(a),
+                      "conditions.keyswv": lambda a: "(keyswv_ext v_conditions)",
+                      "for_me": lambda a: "(src2_for_me %s %s)" % tuple(a)},
+            "globals": {"XSI_TYPE": '(PStr "%s")' % _xsi_type()},
+            "ignore_calls": logs, "returns_state": ["self"], "exc_parents": EXC_PARENTS}),
+        (cf, "Config.endpoint", {
+            "name": "src2_endpoint", "params": ["self", "service", "binding", "context"],
+            "extra_params": [("getattr_ext", "pyval -> pyval -> pyval -> pyval"), ("type_ext", "pyval -> pyval")],
+            "calls": {"self.getattr": lambda a: "(getattr_ext v_self %s %s)" % tuple(a), "type": lambda a: "(type_ext %s)" % a[0]},
+            "globals": {"tuple": '(PStr "tuple")', "list": '(PStr "list")'}}),
+        (cb, "Base.service_urls", {
+            "name": "src2_service_urls", "params": ["self", "binding"],
+            "extra_params": [("getattr_ext", "pyval -> pyval -> pyval -> pyval"), ("type_ext", "pyval -> pyval")],
+            "calls": {"self.config.endpoint": lambda a: '(src2_endpoint getattr_ext type_ext (p2_attr v_self "config") %s %s %s)' % tuple(a)}}),
+    ]
+
+
+def _scm(name):
+    import saml2.saml
+    return getattr(saml2.saml, name)
+
+
+def _xsi_type():
+    import saml2.response
+    return saml2.response.XSI_TYPE
+
+
+def _merge_info(a, b):
+    out = dict(a)
+    for k in ("obligations", "discharged"):
+        out[k] = a.get(k, 0) + b.get(k, 0)
+    out["untranslatable"] = list(a.get("untranslatable", [])) + list(b.get("untranslatable", []))
+    out["translated"] = list(a.get("translated", [])) + list(b.get("translated", []))
+    out["changed"] = bool(a.get("changed")) or bool(b.get("changed"))
+    return out
+
+
 def regenerate_tables(ctx):
-    """Translator: response.for_me as it reads NOW -> coq/gen/C04Src.v; C04/Source.v proves it equal to the model."""
-    import os
-    from harness import common, py2coq
-    return py2coq.regenerate(os.path.join(common.GEN, "C04Src.v"), [
+    """Translator v1: response.for_me as it reads NOW -> coq/gen/C04Src.v (C04/Source.v proves it equal to the model);
+    translator v2: the decision functions of source2_items() -> coq/gen/C04Src2.v (C04/Source2.v)."""
+    from harness import common, py2coq, py2coq2
+    write_abbrev()
+    v1 = py2coq.regenerate(os.path.join(common.GEN, "C04Src.v"), [
         (os.path.join(env.SRC, "saml2", "response.py"), "for_me", {"name": "src_for_me", "params": ["conditions", "myself"]})])
+    v2 = py2coq2.regenerate(os.path.join(common.GEN, "C04Src2.v"), source2_items())
+    return _merge_info(v1, v2)
 
 
 def aud_alphabet(rng=None):
@@ -238,7 +685,7 @@ def aud_alphabet(rng=None):
 
 
 def own_for(cfg, binding):
-    eps = CONFIGS[cfg]
+    eps = cfg_eps(cfg)
     spec = [e[0] for e in eps if isinstance(e, tuple) and e[1] == binding]
     return spec or [e for e in eps if isinstance(e, str)]
 
@@ -318,6 +765,9 @@ def generate(ctx):
     cases += pair_cases(ctx)
     cases += same_object_cases(ctx)
     cases += random_sequences(ctx, 700 if ctx.thorough else 60)
+    # the shape of the message: <Conditions> parts, SubjectConfirmation lists, back-channel binding
+    cases += message_cases(ctx)
+    cases += message_sequences(ctx)
     return cases
 
 
@@ -342,10 +792,13 @@ def lookalike(rng, s):
     return s
 
 
-def _single_sp(cfg):
-    return spaccept.get_sp({"sp_endpoints": {
-        "assertion_consumer_service": CONFIGS[cfg],
-        "single_logout_service": [(world.SP_SLO_REDIRECT, REDIRECT), (world.SP_SLO_POST, POST)]}})
+def _single_sp(cfg, unsol=False):
+    over = {"sp_endpoints": {
+        "assertion_consumer_service": cfg_eps(cfg),
+        "single_logout_service": [(world.SP_SLO_REDIRECT, REDIRECT), (world.SP_SLO_POST, POST)]}}
+    if unsol:
+        over["sp_allow_unsolicited"] = True
+    return spaccept.get_sp(over)
 
 
 # ------------------------------------------------------------------ isolation of the call sequences
@@ -452,26 +905,43 @@ def observe(case):
     return _observe_single(case)
 
 
-def _response(step, n):
+def _response(step, n, me_eid=ME):
     a = spaccept.good_assertion(id="a-%d" % n)
     a["subject"]["name_id"] = "subject-%d" % n
-    a["conditions"]["audience_restrictions"] = step["rs"]
-    d = a["subject"]["confirmations"][0]["data"]
-    if step["recip"] is None:
-        del d["recipient"]
+    cond = _conditions(step, me_eid, OTHER)
+    if cond == "usual":
+        a["conditions"]["audience_restrictions"] = step["rs"]
     else:
-        d["recipient"] = step["recip"]
+        a["conditions"] = cond
+    unsol = bool(step.get("unsol"))      # an unsolicited Response: no InResponseTo anywhere (the SP allows unsolicited ones)
+    if step.get("confs") is not None:
+        # the renderer's confirmation has no child elements: the list is rendered here, next to the NameID
+        a["subject"]["name_id_xml"] = render.name_id(a["subject"]["name_id"]) + "".join(
+            _conf_xml(c, None if unsol else "req-1") for c in step["confs"])
+        a["subject"]["confirmations"] = []
+    else:
+        d = a["subject"]["confirmations"][0]["data"]
+        if unsol:
+            del d["in_response_to"]
+        if step["recip"] is None:
+            del d["recipient"]
+        else:
+            d["recipient"] = step["recip"]
     r = spaccept.good_response(id="r-%d" % n)
+    if unsol:
+        del r["in_response_to"]
     if step["dest"] is None:
         del r["destination"]
     else:
         r["destination"] = step["dest"]
     xml = spaccept.build(r, [a], sign_response="idp")
+    if step["binding"] == SOAP:
+        return xml, render.soap_envelope(xml)
     return xml, (render.b64(xml) if step["binding"] == POST else render.deflate_b64(xml))
 
 
 def _observe_single(case):
-    sp = _single_sp(case["cfg"])
+    sp = _single_sp(case["cfg"], bool(case.get("unsol")))
     xml, enc = _response(case, 1)
     o = spaccept.observe(sp, xml, case["binding"], {"req-1": "/"}, conv_info=case["conv"], encoded=enc)
     return {"identity": o["identity"], "exc": o["exc"]}
@@ -487,7 +957,7 @@ def _subjects(sp):
 def _parse_step(sp, step, n):
     """spaccept.observe for an object whose identity cache is NOT reset between calls: identity = the call
     returned something carrying identity, or the cache holds a subject it did not hold before the call."""
-    xml, enc = _response(step, n)
+    xml, enc = _response(step, n, sp.config.entityid)
     before = _subjects(sp)
     obs = {"identity": False, "exc": None}
     r = None
@@ -544,34 +1014,55 @@ def _observe_seq(case):
 
 
 def coq_eps(eps):
-    out = []
-    for e in eps:
-        if isinstance(e, (tuple, list)):
-            out.append(Raw("(EP %s %s)" % (cq(e[0]), cq(e[1]))))
-        else:
-            out.append(Raw("(Bare %s)" % cq(e)))
-    return out
+    name = abbr()[1].get(json.dumps([list(e) if isinstance(e, (tuple, list)) else e for e in eps]))
+    return Raw(name) if name is not None else Raw(_eps_term(eps))
 
 
 def coq_specs(cfg):
-    return coq_eps(CONFIGS[cfg])
+    return coq_eps(cfg_eps(cfg))
 
 
 def coq_conv(conv):
     if not conv:
         return "None"
-    return "(Some %s)" % cq_opt(conv.get("entity_id"))
+    return "(Some %s)" % cs_opt(conv.get("entity_id"))
+
+
+def coq_conds(st):
+    rs = cq([[Raw(cs_opt(a)) for a in r] for r in st["rs"]])
+    cond = st.get("cond")
+    if cond is None:
+        return "(Some (C04.Corr.K true true false %s))" % rs
+    if not cond["present"]:
+        return "None"
+    return "(Some (C04.Corr.K %s %s %s %s))" % (cq(bool(cond["nb"])), cq(bool(cond["nooa"])), cq(bool(cond["other"])), rs)
+
+
+def coq_confs(st):
+    if st.get("confs") is None:
+        return "[C04.Corr.C Bearer (Some (%s, true))]" % cs_opt(st["recip"])
+    out = []
+    for c in st["confs"]:
+        d = "None" if c["data"] is None else "(Some (%s, %s))" % (cs_opt(c["data"]["recip"]), cq(confirmed(c)))
+        out.append(Raw("(C04.Corr.C %s %s)" % (COQ_METHOD[c["m"]], d)))
+    return cq(out)
 
 
 def coq_parse(ctor, eid, specs, st, identity):
-    rs = [[Raw(cq_opt(a)) for a in r] for r in st["rs"]]
+    if st.get("confs") is not None or st.get("cond") is not None:
+        return "C04.Corr.M %s %s %s %s %s %s %s %s" % (
+            cs(eid), cq(specs), cs(st["binding"]), coq_conds(st), cs_opt(st["dest"]), coq_conv(st["conv"]),
+            coq_confs(st), cq(bool(identity)))
+    rs = [[Raw(cs_opt(a)) for a in r] for r in st["rs"]]
     return "%s %s %s %s %s %s %s %s %s" % (
-        ctor, cq(eid), cq(specs), cq(st["binding"]), cq(rs), cq_opt(st["dest"]), coq_conv(st["conv"]),
-        cq_opt(st["recip"]), cq(bool(identity)))
+        ctor, cs(eid), cq(specs), cs(st["binding"]), cq(rs), cs_opt(st["dest"]), coq_conv(st["conv"]),
+        cs_opt(st["recip"]), cq(bool(identity)))
 
 
 def coq_case(case, obs):
     if "steps" not in case:
+        if case.get("confs") is not None or case.get("cond") is not None:
+            return "[%s]" % coq_parse("C04.Corr.M", ME, coq_specs(case["cfg"]), case, obs["identity"])
         return coq_parse("C04.Corr.mk", ME, coq_specs(case["cfg"]), case, obs["identity"])
     evs = []
     for st, o in zip(case["steps"], obs["steps"]):
@@ -585,12 +1076,12 @@ def coq_case(case, obs):
         if "raised" in o:       # no result of the right kind: the model cannot agree
             res = "RId false"
         elif st["op"] == "urls":
-            res = "RUrls %s" % cq_opt(o["urls"])
+            res = "RUrls %s" % ("None" if o["urls"] is None else "(Some %s)" % cq([cs(u) for u in o["urls"]]))
         elif st["op"] == "endp":
-            res = "REndp %s" % cq(o["endp"])
+            res = "REndp %s" % cq([cs(u) for u in o["endp"]])
         else:
-            res = "RAcs %s" % cq_opt(o["acs"])
-        evs.append(Raw("(%s %s %s, %s)" % (op, cq(specs), cq(st["binding"]), res)))
+            res = "RAcs %s" % cs_opt(o["acs"])
+        evs.append(Raw("(%s %s %s, %s)" % (op, cq(specs), cs(st["binding"]), res)))
     return cq(evs)
 
 
@@ -625,6 +1116,16 @@ def _rel(v, sps, i, binding):
     return "other"
 
 
+def _shape_key(st, cls):
+    """class of the message shape: Conditions parts, and per confirmation (method, data shape, Recipient class)"""
+    cond = st.get("cond")
+    ck = None if cond is None else (cond["present"], cond["nb"], cond["nooa"], cond["other"])
+    confs = st.get("confs")
+    fk = None if confs is None else tuple(
+        (c["m"],) if c["data"] is None else (c["m"], c["data"]["shape"], cls(c["data"]["recip"])) for c in confs)
+    return ck, fk
+
+
 def nontrivial(case, obs):
     if "steps" in case:
         key = []
@@ -634,12 +1135,15 @@ def nontrivial(case, obs):
                 continue
             sps, i, b = case["sps"], st["sp"], st["binding"]
             key.append(("parse", i, b[-4:], _rel(st["dest"], sps, i, b), _rel(st["recip"], sps, i, b),
-                        tuple(tuple(_rel(a, sps, i, b) for a in r) for r in st["rs"]), bool(st["conv"])))
+                        tuple(tuple(_rel(a, sps, i, b) for a in r) for r in st["rs"]), bool(st["conv"]))
+                       + _shape_key(st, lambda v: _rel(v, sps, i, b)))
         return ("seq", tuple(tuple(sorted(p_urls(p))) + (p["eid"],) for p in case["sps"]), tuple(key))
     own = own_for(case["cfg"], case["binding"])
     shape = tuple(tuple("me" if a == ME else ("pad" if a and a.strip() == ME else ("none" if a is None else "x")) for a in r)
                   for r in case["rs"])
     key = (shape, _cls(case["dest"], own), _cls(case["recip"], own), bool(case["conv"]), case["binding"], case["cfg"])
+    if case.get("cond") is not None or case.get("confs") is not None or case.get("unsol"):
+        return key + _shape_key(case, lambda v: _cls(v, own)) + (bool(case.get("unsol")),)
     trivial = shape == (("me",),) and key[1] == "own" and key[2] == "own" and not case["conv"]
     return None if trivial else key
 
